@@ -5,6 +5,7 @@ _COMMON = [
 SPEC = dict(
     harness=['h_list.c'],
     level='exploration',
+    memcheck_cases={'thorough': 1600},
     rule='seeded histories of 40-110 operations, one third each on (a) two list.h rings + 20 nodes: add_next/add_prev/add_node, del_node/del_next/'
          'del_prev/del_ section, set_node/set_ section, mov_next/mov_prev of a whole non-empty ring, rot_next/rot_prev (also on empty and 1-element '
          'rings), swap_node and swap_ of sections that are disjoint and non-adjacent (same or different ring), foreach/forsafe macros; (b) two slist.h '
